@@ -195,6 +195,20 @@ func (g *gen) nested(depth int) core.Value {
 	return v
 }
 
+// plainNested: depth levels of containers (arrays and objects alternating, ASCII
+// keys) around an integer, so that "parses back to the value" is decisive
+func plainNested(depth int) core.Value {
+	var v core.Value = values.Int(7)
+	for i := 0; i < depth; i++ {
+		if i%2 == 0 {
+			v = Arr(v)
+		} else {
+			v = Obj("k", v)
+		}
+	}
+	return v
+}
+
 // rebuild: the same value with the members of every object inserted in the
 // order chosen by pick (a permutation of 0..n-1)
 func rebuild(v core.Value, pick func(n int) []int) core.Value {
@@ -415,6 +429,8 @@ func run(out, tier string, seed int64) {
 	for i := 0; i < nNested; i++ {
 		vals = append(vals, g.nested(3+rng.Intn(40)))
 	}
+	// fixed deep nestings (beyond any small recursion guard), arrays and objects alternating
+	vals = append(vals, plainNested(33), plainNested(48), plainNested(64), plainNested(100))
 	for i := 0; i < nRandom; i++ {
 		vals = append(vals, g.value(4))
 	}
